@@ -122,7 +122,28 @@ class _Canon(ast.NodeTransformer):
                 type(test.ops[0]) in (ast.NotEq, ast.IsNot, ast.NotIn, ast.LtE):
             test.ops = [_NEG[type(test.ops[0])]()]
             return self.visit_Compare(test), True
+        if isinstance(test, ast.BoolOp):
+            # a disjunction of negative literals only is read as the negation
+            # of the conjunction of the positive ones (branches exchanged)
+            import copy as _copy
+            comp = self._nnf(ast.copy_location(
+                ast.UnaryOp(op=ast.Not(), operand=_copy.deepcopy(test)), test))
+            if isinstance(comp, ast.BoolOp) and isinstance(test.op, ast.Or) and \
+                    self._negs(test) == len(test.values) and self._negs(comp) == 0:
+                # `not a or not b` is the De Morgan image of `a and b`
+                return comp, True
         return test, False
+
+    @staticmethod
+    def _negs(b):
+        n = 0
+        for v in b.values:
+            if isinstance(v, ast.UnaryOp) and isinstance(v.op, ast.Not):
+                n += 1
+            elif isinstance(v, ast.Compare) and len(v.ops) == 1 and \
+                    type(v.ops[0]) in (ast.NotEq, ast.IsNot, ast.NotIn):
+                n += 1
+        return n
 
     def visit_Assign(self, node):
         self.generic_visit(node)
